@@ -21,14 +21,26 @@ def one(req):
     schemas = [gen.build(src) for src in req["schemas"]]
     out = []
     seed = eval(req["seed"])
-    for _ in range(req.get("repeat", 1)):
-        Random().set_seed(seed)
-        row = []
+    def generate(row):
         for s in schemas:
             try:
                 row.append(canon(fake(s)))
             except Exception as e:  # noqa
                 row.append("raise:" + type(e).__name__)
+
+    for _ in range(req.get("repeat", 1)):
+        Random().set_seed(seed)
+        row = []
+        generate(row)
+        out.append(row)
+    if req.get("thread"):
+        # seeded here, generated in a worker thread of the same process
+        import threading
+        Random().set_seed(seed)
+        row = []
+        t = threading.Thread(target=generate, args=(row,))
+        t.start()
+        t.join()
         out.append(row)
     return out
 
